@@ -61,6 +61,11 @@ def make_atomizer(subst, env, set_names=()):
                 bn = nm(b_) if isinstance(b_, ast.Name) else None
                 if an and bn:
                     return (f'NotSubset({an},{bn})', False)
+        if (isinstance(n, ast.BinOp) and isinstance(n.op, ast.Sub) and isinstance(n.left, ast.Call) and isinstance(n.left.func, ast.Name)
+                and n.left.func.id in ('set', 'frozenset') and len(n.left.args) == 1 and isinstance(n.left.args[0], ast.Call)
+                and name_is(n.left.args[0].func, 'map') and len(n.left.args[0].args) == 2 and name_is(n.left.args[0].args[0], 'type')
+                and isinstance(n.right, ast.Set) and [src(e) for e in n.right.elts] == ['str'] and nm(n.left.args[0].args[1])):
+            return (f'NotExactlyStr({nm(n.left.args[0].args[1])})', True)
         if isinstance(n, ast.Compare) and len(n.ops) == 1:
             op, l, r = n.ops[0], n.left, n.comparators[0]
             ll, lr = _len_of(l), _len_of(r)
@@ -138,6 +143,8 @@ def make_atomizer(subst, env, set_names=()):
                         return (f'RowLensNe({nm(g.generators[0].iter)},{nm(b)})', True)
                     if name_is(b, var) and nm(a):
                         return (f'RowLensNe({nm(g.generators[0].iter)},{nm(a)})', True)
+            # set(map(type, values)) - {str}: an *exact* type test - instances of str subclasses are strings too
+            pass
             # any(not isinstance(v, str) for v in values)
             if name_is(f, 'any') and len(n.args) == 1 and isinstance(n.args[0], ast.GeneratorExp):
                 g = n.args[0]
@@ -677,4 +684,7 @@ def run(model, R):
     R.guard('GUARD', None, 'Context.__init__', init_rules, model, R)
     R.guard('GUARD', None, 'Context.fromdict', fromdict_rules, model, R)
     R.guard('VALIDATE-BEFORE-CONSTRUCT', None, 'contexts.py', constructor_bypass, model, R)
+    # Context.bools reproduces the accepted table through the library series of this relation (C01's wiring rules are a dependency)
+    from . import c01
+    R.guard('WIRING', None, 'Relation.__new__', c01.relation_new, model, R)
     return __doc__.strip()
